@@ -28,6 +28,9 @@ def negative_controls(run, report):
     r = mc.apalache_outcome(run, [3], negative=True, inv="SortEquivariantUnconditional")
     if r is not None:
         report("OutcomeInt (Apalache): re-listing without C04's proviso on tied teams is refuted", r == [True])
+    r = mc.apalache_outcome(run, [3], negative=True, inv="ComplementRankCollapses")
+    if r is not None:
+        report("OutcomeInt (Apalache): a coarsened value (as 1 - p is) does not keep strict order: refuted", r == [True])
     for prop in ("PROPERTY ModelReadOnly", "INVARIANT ResultIsSequential"):
         cfg = plans.MC_THREADS_CFG % dict(threads="1, 2", reads=3, defect="TRUE", cons="MCConstructed", props=prop)
         r = mc.run_mc(run, "MC_Threads", cfg, "neg-threads", emit=False, expect_violation=True)
